@@ -1,5 +1,5 @@
 (* C16: evaluation of the models on recorded cases (correspondence check). *)
-From CJ Require Import Common.Base C16.Model C16.ModelMw C16.Concrete.
+From CJ Require Import Common.Base C16.Model C16.ModelMw C16.ModelMax C16.Concrete.
 
 Definition oerr_eqb (a b : option N) : bool := option_eqb N.eqb a b.
 
@@ -281,7 +281,16 @@ Definition mat_hkdf (sh sc : bytes) : bytes -> bytes -> nat -> bytes :=
 Definition cm_eqb (a : certmat) (d serial : N) (cn : bytes) : bool :=
   (cm_d a =? d) && (cm_serial a =? serial) && bytes_eqb (cm_cn a) cn.
 
+Fixpoint nlist_eqb (a b : list N) : bool :=
+  match a, b with
+  | [], [] => true
+  | x :: a', y :: b' => (x =? y) && nlist_eqb a' b'
+  | _, _ => false
+  end.
+
 Inductive case :=
+(* real pair: limits read from the constructed objects, what Write reported, reads before the close *)
+| CRp (wmax rbuf : N) (msgs : list bspec) (wobs : list N) (sizes : list N) (obs : list (bspec * option N))
 | CRead (server : bool) (mx : N) (hb : bytes) (raw : list (bspec * option N)) (sizes : list N)
         (obs : list (bspec * option N))
 | CFc (ops : list (N * N)) (obs : list fcobs)
@@ -296,6 +305,11 @@ Inductive case :=
 
 Definition chk (c : case) : bool :=
   match c with
+  | CRp wmax rbuf msgs wobs sizes obs =>
+      let ms := map bspec_val msgs in
+      let '(res, _, _) := pair_reads (N.to_nat wmax) (N.to_nat rbuf) E_EOS ms (map N.to_nat sizes) in
+      (wmax <=? rbuf) && nlist_eqb (map (fun m => N.of_nat (wr_result (N.to_nat wmax) m)) ms) wobs
+      && rres_match res obs
   | CRead server mx hb raw sizes obs =>
       let s := mk_script raw in
       let sz := map N.to_nat sizes in
